@@ -257,11 +257,11 @@ func (r *rig) openFrame(f []byte) (refsession.Plain, error) {
 }
 
 var futureSets = map[string][]told{
-	"near": {{0x51, t0 + 3*60}},                                        // ends inside the first lookahead
-	"mid":  {{0x52, t0 + 8*60}},                                        //
-	"far":  {{0x53, t0 + 70*60}},                                       //
+	"near": {{0x51, t0 + 3*60}},                                         // ends inside the first lookahead
+	"mid":  {{0x52, t0 + 8*60}},                                         //
+	"far":  {{0x53, t0 + 70*60}},                                        //
 	"mix":  {{0x52, t0 + 8*60}, {0x53, t0 + 70*60}, {0x54, t0 + 40*60}}, // overlapping
-	"old":  {{0x55, t0 - 60}},                                          // expired when told
+	"old":  {{0x55, t0 - 60}},                                           // expired when told
 }
 
 func (r *rig) tellFuture(name string) error {
@@ -620,6 +620,12 @@ func main() {
 				}
 			}
 		}
+		// E-SCHED companion: concurrent invokers against bad_server_salt (4 scenarios x 4 subtree shards; thorough 5 x 4)
+		units := 16
+		if c.Thorough() {
+			units = 20
+		}
+		c.ForkSched(units, 16)
 	})
 }
 
